@@ -94,9 +94,9 @@ Props/C03.vos Props/C03.vok Props/C03.required_vos: Props/C03.v Props/Shipped.vo
 Props/C04.vo Props/C04.glob Props/C04.v.beautified Props/C04.required_vo: Props/C04.v Props/Shipped.vo Proofs/ApiFacts.vo Proofs/Laws.vo
 Props/C04.vio: Props/C04.v Props/Shipped.vio Proofs/ApiFacts.vio Proofs/Laws.vio
 Props/C04.vos Props/C04.vok Props/C04.required_vos: Props/C04.v Props/Shipped.vos Proofs/ApiFacts.vos Proofs/Laws.vos
-Props/C05.vo Props/C05.glob Props/C05.v.beautified Props/C05.required_vo: Props/C05.v Props/Shipped.vo Spec/Lex.vo Spec/Grammar.vo Spec/Reject.vo Proofs/ScanRef.vo Proofs/ParseGrammar.vo Proofs/ApiFacts.vo Proofs/RejectProof.vo
-Props/C05.vio: Props/C05.v Props/Shipped.vio Spec/Lex.vio Spec/Grammar.vio Spec/Reject.vio Proofs/ScanRef.vio Proofs/ParseGrammar.vio Proofs/ApiFacts.vio Proofs/RejectProof.vio
-Props/C05.vos Props/C05.vok Props/C05.required_vos: Props/C05.v Props/Shipped.vos Spec/Lex.vos Spec/Grammar.vos Spec/Reject.vos Proofs/ScanRef.vos Proofs/ParseGrammar.vos Proofs/ApiFacts.vos Proofs/RejectProof.vos
+Props/C05.vo Props/C05.glob Props/C05.v.beautified Props/C05.required_vo: Props/C05.v Props/Shipped.vo Spec/Lex.vo Spec/Grammar.vo Spec/Reject.vo Proofs/ScanRef.vo Proofs/ParseGrammar.vo Proofs/ApiFacts.vo Proofs/RejectProof.vo Proofs/Unknown.vo
+Props/C05.vio: Props/C05.v Props/Shipped.vio Spec/Lex.vio Spec/Grammar.vio Spec/Reject.vio Proofs/ScanRef.vio Proofs/ParseGrammar.vio Proofs/ApiFacts.vio Proofs/RejectProof.vio Proofs/Unknown.vio
+Props/C05.vos Props/C05.vok Props/C05.required_vos: Props/C05.v Props/Shipped.vos Spec/Lex.vos Spec/Grammar.vos Spec/Reject.vos Proofs/ScanRef.vos Proofs/ParseGrammar.vos Proofs/ApiFacts.vos Proofs/RejectProof.vos Proofs/Unknown.vos
 Props/C06.vo Props/C06.glob Props/C06.v.beautified Props/C06.required_vo: Props/C06.v Props/Shipped.vo Spec/Eval.vo Spec/Units.vo WF/Units.vo Proofs/ApiFacts.vo Proofs/Laws.vo Proofs/MatchProof.vo Proofs/Sat.vo Proofs/RoundTrip.vo Proofs/BytesFacts.vo
 Props/C06.vio: Props/C06.v Props/Shipped.vio Spec/Eval.vio Spec/Units.vio WF/Units.vio Proofs/ApiFacts.vio Proofs/Laws.vio Proofs/MatchProof.vio Proofs/Sat.vio Proofs/RoundTrip.vio Proofs/BytesFacts.vio
 Props/C06.vos Props/C06.vok Props/C06.required_vos: Props/C06.v Props/Shipped.vos Spec/Eval.vos Spec/Units.vos WF/Units.vos Proofs/ApiFacts.vos Proofs/Laws.vos Proofs/MatchProof.vos Proofs/Sat.vos Proofs/RoundTrip.vos Proofs/BytesFacts.vos
@@ -106,9 +106,9 @@ Props/C07.vos Props/C07.vok Props/C07.required_vos: Props/C07.v Props/Shipped.vo
 Props/C10.vo Props/C10.glob Props/C10.v.beautified Props/C10.required_vo: Props/C10.v Props/Shipped.vo Spec/Eval.vo Proofs/Laws.vo Proofs/Respell.vo
 Props/C10.vio: Props/C10.v Props/Shipped.vio Spec/Eval.vio Proofs/Laws.vio Proofs/Respell.vio
 Props/C10.vos Props/C10.vok Props/C10.required_vos: Props/C10.v Props/Shipped.vos Spec/Eval.vos Proofs/Laws.vos Proofs/Respell.vos
-Props/C15.vo Props/C15.glob Props/C15.v.beautified Props/C15.required_vo: Props/C15.v Props/Shipped.vo Spec/Lex.vo Proofs/ScanRef.vo Proofs/Offsets.vo Proofs/ApiFacts.vo
-Props/C15.vio: Props/C15.v Props/Shipped.vio Spec/Lex.vio Proofs/ScanRef.vio Proofs/Offsets.vio Proofs/ApiFacts.vio
-Props/C15.vos Props/C15.vok Props/C15.required_vos: Props/C15.v Props/Shipped.vos Spec/Lex.vos Proofs/ScanRef.vos Proofs/Offsets.vos Proofs/ApiFacts.vos
+Props/C15.vo Props/C15.glob Props/C15.v.beautified Props/C15.required_vo: Props/C15.v Props/Shipped.vo Spec/Lex.vo Proofs/ScanRef.vo Proofs/Offsets.vo Proofs/ApiFacts.vo Proofs/Unknown.vo
+Props/C15.vio: Props/C15.v Props/Shipped.vio Spec/Lex.vio Proofs/ScanRef.vio Proofs/Offsets.vio Proofs/ApiFacts.vio Proofs/Unknown.vio
+Props/C15.vos Props/C15.vok Props/C15.required_vos: Props/C15.v Props/Shipped.vos Spec/Lex.vos Proofs/ScanRef.vos Proofs/Offsets.vos Proofs/ApiFacts.vos Proofs/Unknown.vos
 Model/GenFiles.vo Model/GenFiles.glob Model/GenFiles.v.beautified Model/GenFiles.required_vo: Model/GenFiles.v Model/Bytes.vo
 Model/GenFiles.vio: Model/GenFiles.v Model/Bytes.vio
 Model/GenFiles.vos Model/GenFiles.vok Model/GenFiles.required_vos: Model/GenFiles.v Model/Bytes.vos
@@ -232,9 +232,15 @@ Proofs/ParseCost.vos Proofs/ParseCost.vok Proofs/ParseCost.required_vos: Proofs/
 Model/Expand.vo Model/Expand.glob Model/Expand.v.beautified Model/Expand.required_vo: Model/Expand.v Model/Api.vo
 Model/Expand.vio: Model/Expand.v Model/Api.vio
 Model/Expand.vos Model/Expand.vok Model/Expand.required_vos: Model/Expand.v Model/Api.vos
+Model/CaseLib.vo Model/CaseLib.glob Model/CaseLib.v.beautified Model/CaseLib.required_vo: Model/CaseLib.v Model/Api.vo
+Model/CaseLib.vio: Model/CaseLib.v Model/Api.vio
+Model/CaseLib.vos Model/CaseLib.vok Model/CaseLib.required_vos: Model/CaseLib.v Model/Api.vos
 Proofs/ExpandProof.vo Proofs/ExpandProof.glob Proofs/ExpandProof.v.beautified Proofs/ExpandProof.required_vo: Proofs/ExpandProof.v Model/Expand.vo Spec/Eval.vo Proofs/Laws.vo
 Proofs/ExpandProof.vio: Proofs/ExpandProof.v Model/Expand.vio Spec/Eval.vio Proofs/Laws.vio
 Proofs/ExpandProof.vos Proofs/ExpandProof.vok Proofs/ExpandProof.required_vos: Proofs/ExpandProof.v Model/Expand.vos Spec/Eval.vos Proofs/Laws.vos
 Proofs/RejectProof.vo Proofs/RejectProof.glob Proofs/RejectProof.v.beautified Proofs/RejectProof.required_vo: Proofs/RejectProof.v Spec/Reject.vo Proofs/BytesFacts.vo Proofs/ParseGrammar.vo
 Proofs/RejectProof.vio: Proofs/RejectProof.v Spec/Reject.vio Proofs/BytesFacts.vio Proofs/ParseGrammar.vio
 Proofs/RejectProof.vos Proofs/RejectProof.vok Proofs/RejectProof.required_vos: Proofs/RejectProof.v Spec/Reject.vos Proofs/BytesFacts.vos Proofs/ParseGrammar.vos
+Proofs/Unknown.vo Proofs/Unknown.glob Proofs/Unknown.v.beautified Proofs/Unknown.required_vo: Proofs/Unknown.v Model/Scan.vo Model/Parse.vo Spec/Lex.vo Proofs/BytesFacts.vo Proofs/ScanRef.vo Proofs/Offsets.vo Proofs/Split.vo
+Proofs/Unknown.vio: Proofs/Unknown.v Model/Scan.vio Model/Parse.vio Spec/Lex.vio Proofs/BytesFacts.vio Proofs/ScanRef.vio Proofs/Offsets.vio Proofs/Split.vio
+Proofs/Unknown.vos Proofs/Unknown.vok Proofs/Unknown.required_vos: Proofs/Unknown.v Model/Scan.vos Model/Parse.vos Spec/Lex.vos Proofs/BytesFacts.vos Proofs/ScanRef.vos Proofs/Offsets.vos Proofs/Split.vos
